@@ -364,7 +364,11 @@ impl Cfg {
             }
             // Behind a new value for the register, reads are not reads of the
             // value in question
-            if next.kill_reg().contains(&item) || next.is_ecall() {
+            // (an ecall gives a new value to every caller-saved register, and
+            // to no other)
+            if next.kill_reg().contains(&item)
+                || (next.is_ecall() && Register::caller_saved_set().contains(&item))
+            {
                 continue;
             }
 
